@@ -435,11 +435,14 @@ def execMany (db : Db) (tn : Py.Str) (cols : List Col) : List (List Val × Int) 
       | .error e => (db, .error e)
       | .ok db' => execMany db' tn cols rest
 
+/-- `if ',' in columns: columns = columns.split(','); if not isinstance(columns, list): columns = [columns]` -/
+def updNames (columns : Py.Str) : List Py.Str := if columns.contains ',' then Py.splitOn ',' columns else [columns]
+
 /-- the body of `update` once the model is fixed -/
 def updateCore (db : Db) (columns : Py.Str) (values : List (List Val)) (tn : Py.Str) (kw : List Kw) :
     Db × Except Err Unit :=
   -- parse the attribute
-  let cols : List Py.Str := if columns.contains ',' then Py.splitOn ',' columns else [columns]
+  let cols : List Py.Str := updNames columns
   -- check the size
   match values with
   | [] => (db, .error .indexError)                                  -- `len(values[0])`
@@ -508,6 +511,18 @@ def sqlKeywordsAsDefault : List Py.Str :=
   ["null".toList, "true".toList, "false".toList, "current_time".toList, "current_date".toList,
    "current_timestamp".toList]
 
+/-- the literal `str(value)` denotes in `DEFAULT <literal>` -/
+def defaultLit (value : Val) : Except Err Val :=
+  match value with
+  | .text s => if isIdent s && !sqlKeywordsAsDefault.contains (Py.lower s) then .ok (.text s)
+               else .error (.unmodelled "default text that is not a bare word")
+  | v => .ok v
+
+/-- the database after `ALTER TABLE … ADD COLUMN name aff DEFAULT d` -/
+def withColumn (db : Db) (tab : Tab) (name : Py.Str) (aff : Aff) (d : Val) : Db :=
+  { db with tabs := [{ tab with rows := tab.rows.map (fun r => { r with extra := r.extra ++ [d] }) }],
+            extra := db.extra ++ [{ name := name, decl := aff }] }
+
 /-- `pdb2sql.add_column`: `ALTER TABLE tn ADD COLUMN 'name' type DEFAULT str(value)` -/
 def addColumn (db : Db) (name coltype : Py.Str) (value : Val) (tn : Py.Str) : Db × Except Err Unit :=
   match db.tabs with
@@ -520,17 +535,9 @@ def addColumn (db : Db) (name coltype : Py.Str) (value : Val) (tn : Py.Str) : Db
       match declOfType coltype with
       | none => (db, .error (.unmodelled "BLOB column"))
       | some aff =>
-        let lit : Except Err Val :=
-          match value with
-          | .text s => if isIdent s && !sqlKeywordsAsDefault.contains (Py.lower s) then .ok (.text s)
-                       else .error (.unmodelled "default text that is not a bare word")
-          | v => .ok v
-        match lit with
+        match defaultLit value with
         | .error e => (db, .error e)
-        | .ok v =>
-          let d := storeVal aff v
-          ({ db with tabs := [{ tab with rows := tab.rows.map (fun r => { r with extra := r.extra ++ [d] }) }],
-                     extra := db.extra ++ [{ name := name, decl := aff }] }, .ok ())
+        | .ok v => (withColumn db tab name aff (storeVal aff v), .ok ())
   | _ => (db, .error (.unmodelled "add_column on a database with several tables"))
 
 def defaultTable : Py.Str := "ATOM".toList
@@ -543,21 +550,25 @@ def fillNewID (db : Db) : List (Nat × Py.Str) → List Val → Except Err (List
     let letter : Val := .text [Char.ofNat (65 + ic)]
     fillNewID db rest (index.foldl (fun acc ind => if ind < 0 then acc else acc.set ind.toNat letter) newID)
 
-/-- `pdb2sql._fix_chainID` -/
-def fixChainID (db : Db) : Db × Except Err Unit :=
+/-- `_fix_chainID` up to the final `update_column`: the new chain identifiers, one per atom -/
+def fixChainIDNew (db : Db) : Except Err (List Val) :=
   match get db "chainID".toList defaultTable [] with
-  | .error e => (db, .error e)
-  | .ok (.models _) => (db, .error .typeError)
+  | .error e => .error e
+  | .ok (.models _) => .error .typeError                     -- `set` of lists
   | .ok (.data items) =>
     match items.mapM itemText with
-    | .error e => (db, .error e)
+    | .error e => .error e
     | .ok chainID =>
       let natom := chainID.length
       let ids := sortDedup strLt chainID
-      if ids.length > 26 then (db, .error .systemExit) else
-      match fillNewID db (ids.zipIdx.map (fun ci => (ci.2, ci.1))) (List.replicate natom (.text [])) with
-      | .error e => (db, .error e)
-      | .ok newID => updateColumn db "chainID".toList newID none defaultTable
+      if ids.length > 26 then .error .systemExit
+      else fillNewID db (ids.zipIdx.map (fun ci => (ci.2, ci.1))) (List.replicate natom (.text []))
+
+/-- `pdb2sql._fix_chainID` -/
+def fixChainID (db : Db) : Db × Except Err Unit :=
+  match fixChainIDNew db with
+  | .error e => (db, .error e)
+  | .ok newID => updateColumn db "chainID".toList newID none defaultTable
 
 /-- one modification of a database object -/
 def step (db : Db) : Op → Db × Except Err Unit
